@@ -109,21 +109,32 @@ def run_c02_driver(ctx, exe, proto, trace, timeout=1500):
         if time.time() - t0 > timeout or restarts > 400:
             ctx.undecided.append("input_drv c02 %s: too many restarts / too slow" % proto)
             break
-        last = None
+        last, probed = None, False
         with open(trace) as f:
             for ln in f:
                 if '"e":"Conn"' in ln:
                     m = re.search(r'"idx":(\d+)', ln)
                     if m:
-                        last = int(m.group(1))
+                        last, probed = int(m.group(1)), False
+                elif '"e":"Probe"' in ln:
+                    probed = True
         tail = open(trace).read()[-400:]
-        if rc != 42 or last is None or last < start:
-            ctx.undecided.append("input_drv c02 %s failed rc=%s at %s: %s" % (proto, rc, last, (err or "")[-400:]))
+        if last is None or last < start or probed:
+            ctx.undecided.append("input_drv c02 %s failed rc=%s outside of a case (last case %s): %s" % (proto, rc, last, (err or "")[-400:]))
             break
         if '"e":"Died"' not in tail:
-            # killed without being able to say why (e.g. sanitizer abort): record it as a death of the service
+            # the process went away without being able to say why (sanitizer report, _exit): a death of the service
+            why = "process exited with status %d" % rc
+            m = re.search(r"(runtime error: [^\n]*|ERROR: AddressSanitizer: [^\n]*)", err or "")
+            if m:
+                why += ": " + re.sub(r'[^ -~]|["\\]', " ", m.group(1))[:200]
             with open(trace, "a") as f:
-                f.write('{"e":"Died","why":"process exited with status %d"}\n' % rc)
+                f.write(json.dumps({"e": "Died", "why": why}) + "\n")
+        m = re.search(r"(SUMMARY: [^\n]*)", err or "")
+        if m:
+            ctx.extra.setdefault("sanitizer_reports", [])
+            if len(ctx.extra["sanitizer_reports"]) < 12:
+                ctx.extra["sanitizer_reports"].append("%s case %d: %s" % (proto, last, m.group(1)[:240]))
         restarts += 1
         start = last + 1
     return n, restarts, hooks
